@@ -55,7 +55,8 @@ class Fact:
 
 class Flow:
     def __init__(self, func: ast.FunctionDef, file: str = "", consts: dict | None = None,
-                 self_name: str | None = None):
+                 self_name: str | None = None, keep_arms: bool = False):
+        self.keep_arms = keep_arms
         self.func = func
         self.file = file
         self.env: dict = {}
@@ -471,9 +472,13 @@ class Flow:
             a, b = env_t.get(nm), env_f.get(nm)
             if t_term and not f_term:
                 merged[nm] = b if b is not None else a
+                if self.keep_arms and b is not None and b != pre.get(nm):
+                    merged[nm] = ("phi", c, ("undef",), b)
             elif f_term and not t_term:
                 merged[nm] = a if a is not None else b
-            elif a == b:
+                if self.keep_arms and a is not None and a != pre.get(nm):
+                    merged[nm] = ("phi", c, a, ("undef",))
+            elif a == b and (a == pre.get(nm) or not self.keep_arms):
                 merged[nm] = a
             else:
                 merged[nm] = ("phi", c, a if a is not None else ("undef",), b if b is not None else ("undef",))
@@ -946,23 +951,24 @@ def truthy(v):
     return None
 
 
-def peval(v, assume: dict):
-    """Specialise an IR under assumed truth values of conditions (keys: IR of the condition)."""
+def peval(v, assume: dict, as_cond: bool = False):
+    """Specialise an IR under assumed truth values of conditions (keys: IR of the
+    condition).  Assumptions are applied in condition positions only."""
     if not isinstance(v, tuple) or not v:
         return v
-    if v in assume:
+    if as_cond and v in assume:
         return ("const", assume[v])
     k = v[0]
     if k == "ifexp":
-        c = peval(v[1], assume)
+        c = peval(v[1], assume, True)
         t = truthy(c)
         if t is True:
-            return peval(v[2], assume)
+            return peval(v[2], assume, as_cond)
         if t is False:
-            return peval(v[3], assume)
-        return ("ifexp", c, peval(v[2], assume), peval(v[3], assume))
+            return peval(v[3], assume, as_cond)
+        return ("ifexp", c, peval(v[2], assume, as_cond), peval(v[3], assume, as_cond))
     if k == "bool":
-        vals = [peval(x, assume) for x in v[2]]
+        vals = [peval(x, assume, as_cond) for x in v[2]]
         out = []
         for x in vals:
             t = truthy(x)
@@ -970,32 +976,33 @@ def peval(v, assume: dict):
                 if t is False:
                     return x if not out else ("bool", "And", tuple(out + [x]))
                 if t is True:
-                    last = x
                     continue
                 out.append(x)
             else:
                 if t is True:
                     return x if not out else ("bool", "Or", tuple(out + [x]))
                 if t is False:
-                    last = x
                     continue
                 out.append(x)
         if not out:
             return vals[-1]
         return ("bool", v[1], tuple(out)) if len(out) > 1 else out[0]
     if k == "unop" and v[1] == "Not":
-        x = peval(v[2], assume)
+        x = peval(v[2], assume, True)
         t = truthy(x)
         return ("const", not t) if t is not None else ("unop", "Not", x)
     if k == "phi":
-        c = peval(v[1], assume)
+        c = peval(v[1], assume, True)
         t = truthy(c)
         if t is True:
-            return peval(v[2], assume)
+            return peval(v[2], assume, as_cond)
         if t is False:
-            return peval(v[3], assume)
-        return ("phi", c, peval(v[2], assume), peval(v[3], assume))
-    return simp(tuple(peval(x, assume) if isinstance(x, tuple) else x for x in v))
+            return peval(v[3], assume, as_cond)
+        return ("phi", c, peval(v[2], assume, as_cond), peval(v[3], assume, as_cond))
+    if k == "comp":
+        gens = tuple((tg, peval(it, assume), tuple(peval(c, assume, True) for c in ifs)) for tg, it, ifs in v[3])
+        return ("comp", v[1], peval(v[2], assume, as_cond), gens)
+    return simp(tuple(peval(x, assume, as_cond) if isinstance(x, tuple) else x for x in v))
 
 
 def expand_bvals(flow, v):
